@@ -169,6 +169,8 @@ package tchannel
 // goroutine's context and then waits for that goroutine to exit; the
 // goroutine's own waits (ticker, ping) all select on that context, so the wait
 // ends promptly -- a fact about another goroutine the engine cannot derive.
+// (It holds only because the caller is never that goroutine itself: the health
+// checker pings through healthCheckPing, C19 file; before fix 22d9b1f it could be.)
 //@ func (c *Connection) stopHealthCheck()
 //@   trusted
 //@   effect bounded
